@@ -297,6 +297,8 @@ func c05Heal(r *rng, id string) {
 
 func TestC05(t *testing.T) {
 	forCases(6, 55, "x", func(i int, r *rng, id string) { lockStir("C05", r, id) })
+	// target selection for gossip, push/pull and probes at the same time: nobody may drop out of the list
+	forCases(12, 56, "y", func(i int, r *rng, id string) { stirLeg("C05", r, id) })
 	n := envInt("VERIF_N", 80)
 	if thorough() {
 		n = envInt("VERIF_N", 3000)
